@@ -231,6 +231,54 @@ def run_batch(ctx, rng, ej, tj, equipment, network, model, batch_no):
                         'disjoint_solution_exists': sol})
 
 
+def run_identical(ctx, rng, equipment, network, model):
+    """Identical requests (same end points, mode, spacing ...) in overlapping synchronisation groups, taken through the
+    steps planning() takes before routing: de-duplication of the groups and aggregation of identical requests.  Two
+    requests that a group of the input declares disjoint must still end on routes without a common link - in particular
+    they must not be merged into one request."""
+    trx = sorted(model.roadm_of)
+    a, z = rng.sample(trx, 2)
+    n = rng.randint(3, 5)
+    ids = [chr(ord('a') + i) for i in range(n)]
+    reqs = [S.request(i, a, z, trx_mode='mode 1') for i in ids]
+    groups = []
+    for _ in range(rng.randint(2, 3)):
+        g = rng.sample(ids, rng.randint(2, min(3, n)))
+        if sorted(g) not in [sorted(x) for x in groups]:
+            groups.append(g)
+    data = {'path-request': reqs, 'synchronization': [S.synchronization(200 + k, g) for k, g in enumerate(groups)]}
+    rqs = requests_from_json(deepcopy(data), equipment)
+    rqs = correct_json_route_list(network, rqs)
+    dsjn = deduplicate_disjunctions(disjunctions_from_json(deepcopy(data)))
+    ctx.count('identical_request_batches')
+    try:
+        rqs, dsjn = requests_aggregation(rqs, dsjn)
+        paths = compute_path_dsjctn(network, equipment, rqs, dsjn)
+    except DisjunctionError:
+        ctx.cls('identical:error')
+        return
+    owner = {}
+    for rq, pth in zip(rqs, paths):
+        for i in rq.request_id.split(' | '):
+            owner[i] = (rq.request_id, [e.uid for e in pth])
+    for g in groups:
+        for x in range(len(g)):
+            for y in range(x + 1, len(g)):
+                (ox, px), (oy, py) = owner[g[x]], owner[g[y]]
+                ctx.count('identical_pairs_checked')
+                if ox == oy:
+                    ctx.violation('disjoint-requests-aggregated', f'groups {groups}: requests {g[x]} and {g[y]} are declared '
+                                  f'disjoint but were merged into one request ({ox}) and share their whole route',
+                                  {'responses': sorted({v[0] for v in owner.values()})},
+                                  mechanism='aggregation-merges-requests-declared-disjoint')
+                    return
+                if px and py and ulinks(model, px) & ulinks(model, py):
+                    ctx.violation('shared-link', f'groups {groups} (identical requests): {g[x]} and {g[y]} share a link',
+                                  {'route_x': model.path_sites(px), 'route_y': model.path_sites(py)})
+                    return
+    ctx.cls('identical:served')
+
+
 def is_first_after_roadm(model, uid):
     a, b, k = model.element_link[uid]
     return model.links[(a, b)][k][0][0] == uid
@@ -259,5 +307,7 @@ def run_case(case, ctx):
         run_batch(ctx, rng, ej, tj, equipment, network, model, b)
         if any(v['mechanism'] is None for v in ctx.violations):
             return
+    if len(model.roadm_of) >= 2:
+        run_identical(ctx, rng, equipment, network, model)
     if not ctx.violations:
         ctx.dump.clear()
